@@ -35,6 +35,19 @@ def tlc_retry(ctx, *a, **kw):
     return r
 
 
+def retry_killed(ctx, fn):
+    """ctx.tv / ctx.binding_demo raise Inconclusive when TLC dies; retry when it was killed by a signal"""
+    for attempt in range(3):
+        try:
+            return fn(attempt)
+        except Inconclusive:
+            runs = ctx.cov['tlc_runs']
+            if runs and runs[-1]['rc'] in KILLED and attempt < 2:
+                vlib.log('TLC run killed by a signal, retrying')
+                continue
+            raise
+
+
 # ------------------------------------------------------------------ 1. MC
 MC_ACTIONS = ['NoSwap'] + ['Swap%d' % i for i in range(1, 9)] + ['Negative', 'NonNegative', 'BigOnly']
 
@@ -206,15 +219,7 @@ def tv_arm(ctx, binp, methods, nontrivial):
     for off in range(0, n, CH):
         part = os.path.join(ctx.build, 'rand_events_%d.ndjson' % off)
         vlib.write_ndjson(part, events[off:off + CH])
-        for attempt in range(3):
-            try:
-                rj, _, res = ctx.tv('TraceScalar', 'TraceScalar.cfg', part, name='tv_rand_%d_%d' % (off, attempt), timeout=3000)
-                break
-            except Inconclusive:
-                last = ctx.cov['tlc_runs'][-1]
-                if last['rc'] in KILLED and attempt < 2:
-                    continue
-                raise
+        rj, _, res = retry_killed(ctx, lambda a: ctx.tv('TraceScalar', 'TraceScalar.cfg', part, name='tv_rand_%d_%d' % (off, a), timeout=3000))
         rej += [(off + l, s) for l, s in rj]
     ctx.cov['traces_validated_against_impl'] += n
     ctx.cov['evaluations'] += n
@@ -232,7 +237,7 @@ def tv_arm(ctx, binp, methods, nontrivial):
         vlib.write_ndjson(rp, [events[l - 1] for l, _ in rej])
         rp2 = os.path.join(ctx.build, 'rej_events_rerun.ndjson')
         ctx.run([binp, 'rerun', rp, rp2], check=True, timeout=3000)
-        rj2, _, _ = ctx.tv('TraceScalar', 'TraceScalar.cfg', rp2, name='tv_confirm', count=False, timeout=3000)
+        rj2, _, _ = retry_killed(ctx, lambda a: ctx.tv('TraceScalar', 'TraceScalar.cfg', rp2, name='tv_confirm_%d' % a, count=False, timeout=3000))
         fresh = vlib.read_ndjson(rp2)
         conf = dict(rj2)
         for idx, (l, sig) in enumerate(rej):
@@ -275,7 +280,7 @@ def demo_arm(ctx, events, rejected):
     h2 = copy.deepcopy(h); h2['v']['mag'][30] ^= 1
     e2 = copy.deepcopy(err); e2['err'] = False                                 # a value where the read cannot be satisfied
     tr = [a, a2, b, b2, c, c2, d, d2, g, g2, h, h2, err, e2]
-    ctx.binding_demo('TraceScalar', 'TraceScalar.cfg', tr, [2, 4, 6, 8, 10, 12, 14])
+    retry_killed(ctx, lambda a: ctx.binding_demo('TraceScalar', 'TraceScalar.cfg', tr, [2, 4, 6, 8, 10, 12, 14], name='TraceScalar_%d' % a))
 
 
 # ------------------------------------------------------------------ reader inventory (evidence only)
